@@ -202,7 +202,8 @@ def _run_once(module, cfg, *, workers=None, simulate=None, depth=None, seed=None
     res.cmd = ' '.join(cmd)
     t0 = time.time()
     try:
-        p = subprocess.run(cmd, capture_output=True, text=True, env=e, timeout=timeout,
+        # (a harness may have capped its own address space for a moment, see conf_persist._MemCap: the JVM must not inherit that)
+        p = subprocess.run(['sh', '-c', 'ulimit -v unlimited 2>/dev/null; exec "$@"', 'sh'] + cmd, capture_output=True, text=True, env=e, timeout=timeout,
                            cwd=cwd or os.path.dirname(os.path.abspath(module)))
     except subprocess.TimeoutExpired as ex:
         if metadir is None:
